@@ -483,6 +483,9 @@ def config_table(ctx):
         res, exc = run(toml)
         ctx.ob("C19.config-table", f"fault:{name}", exc is not None and exc.typename == "ConfigError",
                f"raised {exc.typename if exc is not None else 'nothing (configuration accepted)'}", loc)
+    # nothing on the parsing path keeps state in the default value of a parameter (all the configurations above were parsed in one process)
+    from .common import default_arg_rule
+    default_arg_rule(ctx, I, 0, "pydrex.io.parse_config", construct="parse_config over the whole table")
     ctx.floor("C19.config-table", 200)
 
 
